@@ -41,7 +41,7 @@ macro_rules! boxed_addsub {
         }
     };
 }
-//@ name=c04_boxed_addsub_2_2 prop=C04,C11,C15 tier=quick profile=k64 funcs="BoxedUint::adc,BoxedUint::sbb,BoxedUint::wrapping_add,BoxedUint::wrapping_sub,CheckedAdd,CheckedSub,WrappingAdd,WrappingSub,BoxedUint::fold_limbs" bound="BoxedUint 2+2 limbs, all values, all carry/borrow-in words" free_bits=320
+//@ name=c04_boxed_addsub_2_2 prop=C04,C11,C15 tier=quick profile=k64 funcs="BoxedUint::adc,BoxedUint::sbb,BoxedUint::wrapping_add,BoxedUint::wrapping_sub,CheckedAdd,CheckedSub,WrappingAdd,WrappingSub,BoxedUint::fold_limbs" bound="BoxedUint 2+2 limbs, all values, all carry/borrow-in words" free_bits=320 core=C15
 boxed_addsub!(c04_boxed_addsub_2_2, 2, 2);
 //@ name=c04_boxed_addsub_3_1 prop=C04,C11,C15 tier=quick profile=k64 funcs="BoxedUint::adc,BoxedUint::sbb,BoxedUint::wrapping_add,BoxedUint::wrapping_sub,CheckedAdd,CheckedSub" bound="BoxedUint 3+1 limbs (different precision), all values, all carry/borrow-in words" free_bits=320
 boxed_addsub!(c04_boxed_addsub_3_1, 3, 1);
